@@ -20,12 +20,12 @@ Lemma solve_edge_in_box : forall a g Q L U, L <= U ->
   L <= solve_edge qops a g Q L U /\ solve_edge qops a g Q L U <= U.
 Proof.
   intros a g Q L U LU. unfold solve_edge, maxA, minA.
-  cbn [o_ltb o_thr o_zero o_add o_div qops].
-  qcase Q qthr.
-  - qcase 0 g; split; lra.
+  cbn [o_ltb o_thr o_zero o_add o_div qops negb].
+  qcase 0 Q; cbn [negb].
   - set (x := a + g / Q). qcase x L.
     + qcase U L; split; lra.
     + qcase U x; split; lra.
+  - qcase 0 g; split; lra.
 Qed.
 
 (* ---------------------------------------------------------------- 2 *)
@@ -41,17 +41,15 @@ Qed.
 Lemma gain1_g_compat : forall g g' Q mu, g == g' -> gain1 g Q mu == gain1 g' Q mu.
 Proof. intros. unfold gain1. rewrite H. reflexivity. Qed.
 
-Lemma solve_edge_gain_nonneg : forall a g Q L U, L <= a -> a <= U ->
-  (qthr <= Q \/ Q == 0) -> 0 <= gain1 g Q (solve_edge qops a g Q L U - a).
+(* FULL statement (repaired code): for EVERY curvature Q (positive: clipped Newton step; zero or negative:
+   step to the bound in gradient direction) the 1-D step from a feasible point never loses objective.
+   Before the repair (test Q < 1e-12) this failed for 0 < Q < 1e-12: see solve_edge_old_threshold_refuted. *)
+Lemma solve_edge_gain_nonneg_all : forall a g Q L U, L <= a -> a <= U ->
+  0 <= gain1 g Q (solve_edge qops a g Q L U - a).
 Proof.
-  intros a g Q L U La aU HQ. pose proof qthr_pos as TP.
-  unfold solve_edge, maxA, minA. cbn [o_ltb o_thr o_zero o_add o_div qops].
-  qcase Q qthr.
-  - assert (Q0 : Q == 0) by (destruct HQ; [lra | assumption]).
-    unfold gain1. rewrite Q0.
-    qcase 0 g.
-    + assert (0 <= (U - a) * g) by (apply Qmult_le_0_compat; lra). lra.
-    + assert (0 <= (a - L) * (- g)) by (apply Qmult_le_0_compat; lra). lra.
+  intros a g Q L U La aU.
+  unfold solve_edge, maxA, minA. cbn [o_ltb o_thr o_zero o_add o_div qops negb].
+  qcase 0 Q; cbn [negb].
   - assert (Qp : 0 < Q) by lra.
     assert (Hs : g == (g / Q) * Q) by (field; lra).
     set (s := g / Q) in *.
@@ -61,12 +59,67 @@ Proof.
     + qcase U L; [lra|]. right. lra.
     + qcase U (a + s); [left; lra|].
       assert (s <= 0 \/ 0 <= s) as [S|S] by lra; [right|left]; lra.
+  - unfold gain1.
+    qcase 0 g.
+    + set (m := U - a). assert (0 <= m) by (unfold m; lra).
+      assert (0 <= m * g) by (apply Qmult_le_0_compat; lra).
+      assert (0 <= (- Q) * (m * m)) by (apply Qmult_le_0_compat; [lra|nra]). lra.
+    + set (m := L - a). assert (m <= 0) by (unfold m; lra).
+      assert (0 <= (- m) * (- g)) by (apply Qmult_le_0_compat; lra).
+      assert (0 <= (- Q) * (m * m)) by (apply Qmult_le_0_compat; [lra|nra]). lra.
+Qed.
+
+(* the statement in the form used by the multi-class solvers' proofs (C16) *)
+Lemma solve_edge_gain_nonneg : forall a g Q L U, L <= a -> a <= U ->
+  (qthr <= Q \/ Q == 0) -> 0 <= gain1 g Q (solve_edge qops a g Q L U - a).
+Proof. intros a g Q L U La aU _. apply solve_edge_gain_nonneg_all; assumption. Qed.
+
+(* the clipped Newton step is moreover OPTIMAL on [L,U] for Q > 0 *)
+Lemma solve_edge_optimal : forall a g Q L U, L <= a -> a <= U -> 0 < Q ->
+  forall x, L <= x -> x <= U -> gain1 g Q (x - a) <= gain1 g Q (solve_edge qops a g Q L U - a).
+Proof.
+  intros a g Q L U La aU Qp x Lx xU.
+  unfold solve_edge, maxA, minA. cbn [o_ltb o_thr o_zero o_add o_div qops negb].
+  qcase 0 Q; cbn [negb]; [|lra].
+  assert (Hs : g == (g / Q) * Q) by (field; lra).
+  set (s := g / Q) in *.
+  rewrite !(gain1_g_compat _ _ _ _ Hs). unfold gain1.
+  (* gain(mu) = Q * (mu*s - mu^2/2), concave with maximum at mu = s *)
+  assert (K : forall mu nu, (mu - s) * (mu - s) <= (nu - s) * (nu - s) ->
+              nu * (s * Q) - (1#2) * Q * nu * nu <= mu * (s * Q) - (1#2) * Q * mu * mu).
+  { intros mu nu Hd.
+    assert (EQ : mu * (s * Q) - (1#2) * Q * mu * mu - (nu * (s * Q) - (1#2) * Q * nu * nu)
+                == (1#2) * Q * ((nu - s) * (nu - s) - (mu - s) * (mu - s))) by ring.
+    assert (0 <= (1#2) * Q * ((nu - s) * (nu - s) - (mu - s) * (mu - s))).
+    { apply Qmult_le_0_compat; [lra|lra]. }
+    lra. }
+  apply K.
+  assert (SQ : forall p q : QArith_base.Q, (0 <= p /\ p <= q) \/ (q <= p /\ p <= 0) -> p * p <= q * q).
+  { intros p q [[P1 P2]|[P1 P2]].
+    - assert (0 <= (q - p) * (q + p)) by (apply Qmult_le_0_compat; lra). lra.
+    - assert (0 <= (p - q) * (- (q + p))) by (apply Qmult_le_0_compat; lra). lra. }
+  qcase (a + s) L.
+  - qcase U L; [lra|]. apply SQ. left. lra.
+  - qcase U (a + s).
+    + apply SQ. right. lra.
+    + assert (Z : a + s - a - s == 0) by ring. rewrite Z.
+      set (t := x - a - s).
+      assert (0 <= t * t).
+      { destruct (Qlt_le_dec t 0) as [N|N].
+        - assert (0 <= (- t) * (- t)) by (apply Qmult_le_0_compat; lra). lra.
+        - apply Qmult_le_0_compat; assumption. }
+      lra.
 Qed.
 
 (* ---------------------------------------------------------------- 3 *)
-(* curvature 0 < Q < 1e-12 is treated as 0: the step to the far bound overshoots the maximum *)
-Lemma solve_edge_gain_refuted : exists a g Q L U,
-  L <= a /\ a <= U /\ 0 < Q /\ Q < qthr /\ gain1 g Q (solve_edge qops a g Q L U - a) < 0.
+(* Regression for finding "edge1d:tiny-Q": with the OLD test (Q < 1e-12 treated as flat) the step went to
+   the far bound and overshot the maximum; old_solve_edge is the former code. *)
+Definition old_solve_edge (a g Q L U : QArith_base.Q) : QArith_base.Q :=
+  if qltb Q qthr then (if qltb 0 g then U else L) else Qmin (Qmax (a + g / Q) L) U.
+
+Lemma solve_edge_old_threshold_refuted : exists a g Q L U,
+  L <= a /\ a <= U /\ 0 < Q /\ Q < qthr /\
+  gain1 g Q (old_solve_edge a g Q L U - a) < 0 /\ 0 <= gain1 g Q (solve_edge qops a g Q L U - a).
 Proof.
   exists 0, (1 # 10000000000000), (1 # 10000000000000), 0, (100000000000000 # 1).
   repeat split; qdec.
@@ -362,5 +415,6 @@ Print Assumptions solve_2d_edges_gain.
 Print Assumptions box2d_gain_nonneg.
 Print Assumptions box2d_edges_best.
 Print Assumptions solve_edge_in_box.
-Print Assumptions solve_edge_gain_refuted.
+Print Assumptions solve_edge_gain_nonneg_all.
+Print Assumptions solve_edge_optimal.
 Print Assumptions solve_2d_in_box.
